@@ -93,10 +93,15 @@ static void show_al(void)
 	printf(" ## %llu", (unsigned long long)al->size);
 }
 
+/* the order the comparators implement depends on this variable: `sortd` sorts with the SAME function pointer in
+ * descending order (a comparator may depend on state outside the array; the sort has to call it every time) */
+static int cmp_desc;
+
 static int cmp_ptr(const void *a, const void *b)
 {
 	uintptr_t x = (uintptr_t) * (void *const *)a, y = (uintptr_t) * (void *const *)b;
-	return x < y ? -1 : x > y;
+	int r = x < y ? -1 : x > y;
+	return cmp_desc ? -r : r;
 }
 
 /* ---- json_object layer ---- */
@@ -188,10 +193,15 @@ static void show_ja(size_t ins, int handed_over)
 static int cmp_jso(const void *a, const void *b)
 {
 	const struct json_object *x = *(struct json_object *const *)a, *y = *(struct json_object *const *)b;
+	int r;
 	if (!x || !y)
-		return x ? 1 : (y ? -1 : 0);
-	int64_t i = json_object_get_int64(x), j = json_object_get_int64(y);
-	return i < j ? -1 : i > j;
+		r = x ? 1 : (y ? -1 : 0);
+	else
+	{
+		int64_t i = json_object_get_int64(x), j = json_object_get_int64(y);
+		r = i < j ? -1 : i > j;
+	}
+	return cmp_desc ? -r : r;
 }
 
 static void teardown(void)
@@ -321,9 +331,11 @@ int main(void)
 				show_al();
 				EOL();
 			}
-			else if (!strcmp(op, "sort") && NW == 1)
+			else if ((!strcmp(op, "sort") || !strcmp(op, "sortd")) && NW == 1)
 			{
+				cmp_desc = op[4] == 'd';
 				array_list_sort(al, cmp_ptr);
+				cmp_desc = 0;
 				printf("r=0");
 				show_al();
 				EOL();
@@ -411,9 +423,11 @@ int main(void)
 				show_ja(0, 0);
 				EOL();
 			}
-			else if (!strcmp(op, "jsort") && NW == 1)
+			else if ((!strcmp(op, "jsort") || !strcmp(op, "jsortd")) && NW == 1)
 			{
+				cmp_desc = op[5] == 'd';
 				json_object_array_sort(ja, cmp_jso);
+				cmp_desc = 0;
 				printf("r=0");
 				show_ja(0, 0);
 				EOL();
